@@ -316,8 +316,13 @@ class Check:
                 nseeds = min(nseeds, total)
             det, mism, errs = self.determinism(main_exe, env, seed, tier, nseeds, thorough)
             problems += errs
+            det_problem = None
             if mism:
-                problems.append("determinism self-test failed: " + "; ".join(mism[:5]))
+                # Not fatal yet: a change to the repository can introduce process-wide state that the
+                # harness does not know how to reset, which makes runs depend on their predecessors in
+                # the process. Violations are still believed if (and only if) their minimised cases
+                # replay in two fresh processes; without any confirmed violation this ends in exit 2.
+                det_problem = "determinism self-test failed: " + "; ".join(mism[:5])
             # 2. race self-test (fixture must be detected) if a race binary is used
             race_self = None
             if race_exe and not problems:
@@ -463,7 +468,11 @@ class Check:
             print("  class=%s detail=%s" % (sig, detail))
             print("VIOLATION property=%s replay=%s" % (self.prop, path))
         if violations:
+            if det_problem:
+                print("HARNESS-NOTE:", det_problem[:1500])
             return 1
+        if det_problem:
+            problems.insert(0, det_problem)
         if problems:
             for p in problems[:10]:
                 print("HARNESS-ERROR:", p[:3000])
